@@ -161,12 +161,17 @@ pub fn std_resources() -> Vec<Resource> {
         resource("s1x", &[], ResourceType::Mime(MimeType::TextPlain), "s1x", &[], 0),
         resource("bad2", &["leak", "a-alias"], ResourceType::Mime(MimeType::TextPlain), "bad2-rejected", &[], 0),
         resource("bad2", &[], ResourceType::Mime(MimeType::TextPlain), "bad2", &[], 0),
+        // a resource whose own NAME is an identifier already taken as an alias (of `a`): rejected,
+        // `a-alias` keeps resolving to `a`, and the newcomer's alias `shadow` resolves to nothing;
+        // and one whose alias is the NAME of a loaded resource (`b`): rejected as well
+        resource("a-alias", &["shadow"], ResourceType::Mime(MimeType::TextPlain), "shadow", &[], 0),
+        resource("bad3", &["b"], ResourceType::Mime(MimeType::TextPlain), "bad3", &[], 0),
     ]
 }
 
-/// The two entries of `std_resources` that the store must reject (their second alias is taken).
+/// The entries of `std_resources` that the store must reject (an alias or the name is taken).
 pub fn deliberately_rejected(r: &Resource) -> bool {
-    r.name.starts_with("bad") && r.aliases.iter().any(|a| a == "a-alias")
+    r.name == "a-alias" || (r.name.starts_with("bad") && r.aliases.iter().any(|a| a == "a-alias" || a == "b"))
 }
 
 pub fn data_url(mime: &str, content: &str) -> String {
